@@ -23,6 +23,8 @@
 //!                              blanks, runs of other characters.
 //!   `pt <text>`                literal property-list text (`\n`, `\\`, `\xHH` escapes).
 //!   `pn <n> <text>`            the text followed by n opening parentheses (nesting depth).
+//!   `pg <key=n>*`              a property list built from counts (see `gen_counts_pl`): sub-file
+//!                              counts at and just beyond each format limit, produced from text.
 //!
 //! Texts nested deeper than 20 000 are run in a child process (a stack overflow aborts the
 //! process and cannot be caught); the abort is reported as `impl-panic` with signature
@@ -457,6 +459,7 @@ impl C10 {
                 let n: usize = n.parse().expect("pn count");
                 format!("{}{}", unesc(prefix), "(".repeat(n))
             }
+            "pg" => gen_counts_pl(rest),
             "p" => {
                 let mut w = rest.split(' ');
                 let src = String::from_utf8_lossy(&self.load(w.next().unwrap())).into_owned();
@@ -818,6 +821,90 @@ fn gen_char(r: &mut Rng, pool: &[u8]) -> String {
     } else {
         gen_number(r)
     }
+}
+
+/// `pg` cases: a property list built from counts, to reach the sub-file counts at and just
+/// beyond each format limit *from PL text*. Keys (all optional, `key=n`):
+/// `w h d i` n characters (codes 0..) with n distinct non-zero widths/heights/depths/italics;
+/// `v` n characters with a VARCHAR; `p` the highest PARAMETER number; `hd` the highest HEADER
+/// index; `k` n KRN steps with n distinct values; `kr` n KRN steps that repeat one value;
+/// `l` n LIG steps; `lab` n characters whose LABEL sits at the *end* of the lig table (needs a
+/// redirect word each once the table is longer than 255); `b` 1 = BOUNDARYCHAR with a
+/// LABEL BOUNDARYCHAR; `bc`/`ec` one extra CHARACTER at that code; `big` 1 = large values
+/// (around 1900) instead of small ones.
+fn gen_counts_pl(spec: &str) -> String {
+    let mut m: BTreeMap<&str, usize> = BTreeMap::new();
+    for kv in spec.split(' ').filter(|x| !x.is_empty()) {
+        let (k, v) = kv.split_once('=').expect("pg key=value");
+        m.insert(k, v.parse().expect("pg value"));
+    }
+    let g = |k: &str| m.get(k).copied().unwrap_or(0);
+    let big = g("big") == 1;
+    let val = |j: usize| -> String {
+        if big {
+            format!("{}.{:06}", 1900 + j % 100, j)
+        } else {
+            format!("{}.{:06}", j / 1000, (j % 1000) * 1000 + 1)
+        }
+    };
+    let mut s = String::from("(CHECKSUM O 1)\n");
+    if g("hd") > 0 {
+        s.push_str(&format!("(HEADER D {} O 7)\n", g("hd")));
+    }
+    if g("p") > 0 {
+        s.push_str(&format!("(FONTDIMEN (PARAMETER D {} R 1.0))\n", g("p")));
+    }
+    if g("b") == 1 {
+        s.push_str("(BOUNDARYCHAR C b)\n");
+    }
+    let n_chars = [g("w"), g("h"), g("d"), g("i"), g("v"), g("lab")].into_iter().max().unwrap_or(0).min(256);
+    for c in 0..n_chars {
+        s.push_str(&format!("(CHARACTER D {c}"));
+        if c < g("w") {
+            s.push_str(&format!(" (CHARWD R {})", val(c + 1)));
+        } else {
+            s.push_str(" (CHARWD R 1.0)");
+        }
+        if c < g("h") {
+            s.push_str(&format!(" (CHARHT R {})", val(c + 1)));
+        }
+        if c < g("d") {
+            s.push_str(&format!(" (CHARDP R {})", val(c + 1)));
+        }
+        if c < g("i") {
+            s.push_str(&format!(" (CHARIC R {})", val(c + 1)));
+        }
+        if c < g("v") {
+            s.push_str(&format!(" (VARCHAR (REP D {c}))"));
+        }
+        s.push_str(")\n");
+    }
+    for k in ["bc", "ec"] {
+        if let Some(c) = m.get(k) {
+            s.push_str(&format!("(CHARACTER D {c} (CHARWD R 1.0))\n"));
+        }
+    }
+    if g("k") + g("kr") + g("l") + g("lab") + g("b") > 0 {
+        s.push_str("(LIGTABLE\n(LABEL C a)\n");
+        for j in 0..g("k") {
+            s.push_str(&format!("(KRN C a R {}.{:06})\n", if big { 10 } else { 0 }, j + 1));
+        }
+        for _ in 0..g("kr") {
+            s.push_str("(KRN C a R 0.5)\n");
+        }
+        for _ in 0..g("l") {
+            s.push_str("(LIG C c C d)\n");
+        }
+        s.push_str("(STOP)\n");
+        for c in 0..g("lab").min(256) {
+            s.push_str(&format!("(LABEL D {c})\n(KRN C a R 0.25)\n(STOP)\n"));
+        }
+        if g("b") == 1 {
+            s.push_str("(LABEL BOUNDARYCHAR)\n(KRN C a R 0.25)\n(STOP)\n");
+        }
+        s.push_str(")\n");
+    }
+    s
 }
 
 /// A small random property list built from the grammar (with deliberate violations).
@@ -1318,6 +1405,26 @@ impl Property for C10 {
                     }
                 }
             }
+            "pg" => {
+                let w: Vec<&str> = rest.split(' ').filter(|x| !x.is_empty()).collect();
+                for i in 0..w.len() {
+                    let mut o = w.clone();
+                    o.remove(i);
+                    c.push(format!("pg {}", o.join(" ")));
+                }
+                for i in 0..w.len() {
+                    if let Some((k, v)) = w[i].split_once('=') {
+                        let v: usize = v.parse().unwrap_or(0);
+                        for nv in [v / 2, v.saturating_sub(1000), v.saturating_sub(100), v.saturating_sub(10), v.saturating_sub(1)] {
+                            if nv < v {
+                                let mut o: Vec<String> = w.iter().map(|x| x.to_string()).collect();
+                                o[i] = format!("{k}={nv}");
+                                c.push(format!("pg {}", o.join(" ")));
+                            }
+                        }
+                    }
+                }
+            }
             "pn" => {
                 let (n, prefix) = rest.split_once(' ').unwrap_or((rest, ""));
                 let n: usize = n.parse().unwrap_or(0);
@@ -1455,7 +1562,7 @@ impl C10 {
                     }
                 }
             }
-            "p" | "pt" | "pn" => {
+            "p" | "pt" | "pn" | "pg" => {
                 let text = self.text_of_case(cmd, rest);
                 out.nontrivial = text.contains('(');
                 out.tag(format!("case:{cmd}"));
